@@ -573,9 +573,11 @@ example :
 
 `Zc.GenFn.Registry` is regenerated from the *bodies* of all methods of `ServiceRegistry` (`tools/gen_fn.py`);
 `GenFacts/FnRegistry.lean` proves, method by method and under the representation invariant `RInv` (which every mutator
-preserves), that the hand-written `Registry` model above computes what those bodies compute.  Hence the registry
-theorems hold of the translated source itself, and an edit of a method body breaks a named lemma of `FnRegistry` at
-stage P. -/
+preserves), that the hand-written `Registry` model above computes what those bodies compute.  **What this transports**: each
+registry operation of the model is the translated body, along every sequence of calls (`C03_registry_is_source`), plus the two
+component facts restated below over the generated functions; an edit of a method body that changes what it computes breaks a named
+lemma of `FnRegistry` at stage P.  **What it does not**: the answering theorems of this file (`respond`, the host runs over `HostOp`: API calls, queries, transmissions) are about
+hand-written callers of the registry; they are not re-proved over the generated functions. -/
 section Tie
 open Zc.Py Zc.GenFn.Registry Zc.GenFacts.FnRegistry
 
